@@ -209,9 +209,31 @@ def run_line_case(case):
 
     tags_config = case["tags_config"]
     if isinstance(tags_config, list):
-        tags_config = set(tags_config)
+        # "if they are an iterable": any iterable of names, also one that can be read once
+        names = list(tags_config)
+        tags_config = {
+            "set": set, "list": list, "tuple": tuple, "iter": iter,
+            "generator": lambda items: (item for item in items),
+            "keys": lambda items: dict.fromkeys(items).keys(),
+        }[case.get("tags_form", "set")](names)
     record_tags, fields = case["record_tags"], case["fields"]
     payload = {**fields, **record_tags}
+    form = case.get("payload_form", "dict")
+    if form != "dict":
+        # the data of a record is a mapping, not necessarily a plain dict
+        import collections
+        import types
+
+        class Missing(dict):
+            def __missing__(self, key):
+                return 0
+
+        payload = {
+            "ordered": collections.OrderedDict,
+            "defaultdict": lambda data: collections.defaultdict(lambda: "dflt", data),
+            "missing-hook": Missing, "proxy": types.MappingProxyType,
+            "chainmap": lambda data: collections.ChainMap({}, data),
+        }[form](payload)
     try:
         formatter = LineProtocolFormatter(tags=tags_config, resolution=case["resolution"])
         output = formatter.format(make_record(case["measurement"], payload, case["created"]))
@@ -373,6 +395,19 @@ def shard_config(args):
     """Tag configurations x record overrides x field values x resolutions x times"""
     (config,) = args
     acc = Acc()
+    if isinstance(config, list) and config:
+        # the whitelist given as other iterables, the record data as other mappings
+        for tags_form, payload_form in itertools.product(
+                ["set", "list", "tuple", "iter", "generator", "keys"],
+                ["dict", "ordered", "defaultdict", "missing-hook", "proxy", "chainmap"]):
+            for present in itertools.product((False, True), repeat=len(config)):
+                record_tags = {k: "r" for k, flag in zip(config, present) if flag}
+                for resolution, created in ((None, None), (10, 61.25)):
+                    case = {"measurement": "m", "tags_config": config,
+                            "record_tags": record_tags, "fields": {"f": 1, "g": "s"},
+                            "resolution": resolution, "created": created,
+                            "tags_form": tags_form, "payload_form": payload_form}
+                    check_line_case(acc, case)
     for config in [config]:
         names = list(config) if config else []
         for record_values in itertools.product(RECORD_TAG_VALUES, repeat=len(names)):
